@@ -272,10 +272,13 @@ pub fn run(ctx: &Ctx) -> i32 {
             ctx.sample(json!({"program": ir::print_canonical(&b.nodes).lines().collect::<Vec<_>>(), "fault": b.fault}));
         }
         check(ctx, &b);
+        if b.fault.is_none() && i % 2 == 1 {
+            c02::check_wrapped(ctx, &b.nodes, &mut rng, "data");
+        }
     });
     fw::finish(
         ctx,
-        "programs of 1-10 .db/.dw/.dd/.dq lines in flash and EEPROM, 0-12 operands each mixing boundary literals, computed values, .equ symbols, random expressions and strings (empty, punctuation that looks like comments, non-ASCII UTF-8), `.byte n` between EEPROM data; one in three programs carries exactly one fault (value that does not fit its width, string in a word directive, data directive in .dseg); plus the complete width x boundary-value grid in both segments; distinct_nontrivial = distinct program texts",
+        "programs of 1-10 .db/.dw/.dd/.dq lines in flash and EEPROM, 0-12 operands each mixing boundary literals, computed values, .equ symbols, random expressions and strings (empty, punctuation that looks like comments, non-ASCII UTF-8), `.byte n` between EEPROM data; one in three programs carries exactly one fault (value that does not fit its width, string in a word directive, data directive in .dseg); plus the complete width x boundary-value grid in both segments; every second valid program again with runs of its lines moved into argument-less macros (same images required); distinct_nontrivial = distinct program texts",
         &["refmodel/layout.rs data rules; fits = signed or unsigned representation of the width"],
     )
 }
